@@ -105,7 +105,7 @@ impl<T> Read for WebsocketStreamWrapper<T> where T : Read + Write {
             }
 
             if let Some(current_message) = &mut self.current_read_message {
-                bytes_read += current_message.read(buf);
+                bytes_read += current_message.read(&mut buf[bytes_read..]);
             }
 
             if bytes_read < buf.len() {
